@@ -106,6 +106,31 @@ func c04Edits(t *rapid.T, w *kit.World, tag string) []kit.Line {
 		}
 		out = append(out, l)
 	}
+	// a map id that no name refers to but that sorts directly before one that is in use
+	// (same first byte), given default routes: lookups in the used map must not see it
+	if rapid.Bool().Draw(t, tag+"-neighbour-map") {
+		used := map[string]bool{}
+		for _, l := range w.Lines {
+			if l.K == 'M' || l.K == '8' {
+				used[l.MapID] = true
+			}
+		}
+		var ids []string
+		for id := range used {
+			ids = append(ids, id)
+		}
+		sortStrings(ids)
+		if len(ids) > 0 {
+			id := rapid.SampledFrom(ids).Draw(t, tag+"-nbr-of")
+			if len(id) == 2 && id[1] > 0 {
+				nb := string([]byte{id[0], id[1] - 1})
+				if !used[nb] {
+					lo := rapid.SampledFrom([]string{"l1", "l2", "La"}).Draw(t, tag+"-nbr-loc")
+					out = append(out, kit.Line{K: '%', Loc: lo, CIDR: "0.0.0.0/0", MapID: nb, TTL: -1}, kit.Line{K: '%', Loc: lo, CIDR: "::/0", MapID: nb, TTL: -1})
+				}
+			}
+		}
+	}
 	// subnets of maps that no name refers to (one sorting before, one after the others)
 	ns := rapid.IntRange(0, 3).Draw(t, tag+"-nsub")
 	for i := 0; i < ns; i++ {
